@@ -191,6 +191,16 @@ class Peer:
             return
         data, what = self.frame_for(i)
         cuts = self.req(i).get("cuts")
+        f = self.case.get("fault")
+        if (f and f["kind"] == "eof_at" and f.get("glue") and f["pos"] == i + 1 and what == "ok"
+                and len(self.seen) > i + 1):
+            # clean EOF exactly on the frame boundary after reply i, delivered in the SAME callback as reply i's
+            # bytes, while request i+1 is already outstanding (the reader task cannot run between the two)
+            self.link.send_glued_eof(data)
+            self.replied += 1
+            self.dead = True
+            self.glued = True
+            return
         self.link.send(data, cuts=cuts)
         self.replied += 1
         if what == "eof_at" or what == "fatal_then_close":
@@ -272,6 +282,8 @@ def gen_case(rng: random.Random, idx):
             f["value"] = rng.choice([-1, -2**31, 2**31 - 1, 2**30])
         if kind in ("eof_at", "reset_at"):
             f["keep"] = rng.randrange(0, 64)
+            if kind == "eof_at" and pos >= 1 and rng.random() < 0.4:
+                f["keep"], f["glue"] = 0, True      # EOF on the frame boundary, glued to the previous reply's bytes
         case["fault"] = f
     if rng.random() < 0.15:
         # chunk-split mode: all replies in one stream cut at seeded positions
